@@ -1,2 +1,208 @@
--- driver stub for C09 (replaced when the model is built)
-def main : IO Unit := pure ()
+import PyramidModel.Prelude
+import PyramidModel.AuthTkt
+/-! Driver for C09: one JSON case (= one request under one helper configuration) per line.
+in : {"cfg":{"secret":s,"name":s,"secure":b,"include_ip":b,"timeout":n|null,"reissue":n|null,"max_age":n|null,
+             "http_only":b,"path":s,"wild":b,"parent":b,"domain":s|null,"samesite":s|null,"hsize":n},
+      "req":{"cookie":s|null,"ip":s,"domain":s,"now":n,"clock":n},
+      "ops":[{"op":"identify"}|{"op":"remember","uid":{"t":"int|str|bytes|other","v":s},"max_age":n|null,"tokens":[s|null]}|{"op":"forget"}],
+      "hash":{"<input hex>":"<digest hex>"},      -- the hash function, as a table (answered by hashlib in the harness)
+      "uni":{"<code point>":"s"|d}}               -- Unicode database facts about the non-ASCII characters of the case
+out: {"results":[…per op…],"response":[cookies appended by the response callbacks],"st":{"reissued":b,"revoked":b},
+      "dins":[first-hash input (hex) the model computed for the op | null],
+      "spec":[per identify op: {"digest_ok":b|null,"fields":…}]} -/
+open Pyr Pyr.AuthTkt Lean
+
+def hexNibble (c : Char) : Option Nat :=
+  if '0' ≤ c ∧ c ≤ '9' then some (c.toNat - 48)
+  else if 'a' ≤ c ∧ c ≤ 'f' then some (c.toNat - 87)
+  else if 'A' ≤ c ∧ c ≤ 'F' then some (c.toNat - 55)
+  else none
+
+def unhex : List Char → Except String Bytes
+  | [] => pure []
+  | a :: b :: r =>
+    match hexNibble a, hexNibble b with
+    | some x, some y => do pure (UInt8.ofNat (x * 16 + y) :: (← unhex r))
+    | _, _ => throw "bad hex"
+  | _ => throw "odd hex"
+
+def hexStr (bs : Bytes) : String := String.ofList (hexOf bs)
+
+def optNat (j : Json) (k : String) : Except String (Option Nat) := do
+  match j.getObjVal? k with
+  | .ok .null => pure none
+  | .ok v => do let n : Nat ← fromJson? v; pure (some n)
+  | .error _ => pure none
+
+def optText (j : Json) (k : String) : Except String (Option Text) := do
+  match j.getObjVal? k with
+  | .ok .null => pure none
+  | .ok v => do let s : String ← fromJson? v; pure (some s.toList)
+  | .error _ => pure none
+
+def getText (j : Json) (k : String) : Except String Text := do
+  let s : String ← getAs j k
+  pure s.toList
+
+def parseCfg (j : Json) : Except String (Cfg × Nat) := do
+  let cfg : Cfg := {
+    secret := ← getText j "secret"
+    cookieName := ← getText j "name"
+    secure := ← getAs j "secure"
+    includeIp := ← getAs j "include_ip"
+    timeout := ← optNat j "timeout"
+    reissueTime := ← optNat j "reissue"
+    maxAge := ← optNat j "max_age"
+    httpOnly := ← getAs j "http_only"
+    path := ← getText j "path"
+    wildDomain := ← getAs j "wild"
+    parentDomain := ← getAs j "parent"
+    domain := ← optText j "domain"
+    samesite := ← optText j "samesite" }
+  let hsize : Nat ← getAs j "hsize"
+  pure (cfg, hsize)
+
+def parseReq (j : Json) : Except String Req := do
+  pure { cookie := ← optText j "cookie", remoteAddr := ← getText j "ip", domain := ← getText j "domain",
+         now := ← getAs j "now", clock := ← getAs j "clock" }
+
+def parseIntStr (s : String) : Except String Int :=
+  match s.toInt? with
+  | some z => pure z
+  | none => throw s!"bad int {s}"
+
+def parseUid (j : Json) : Except String UserId := do
+  let t : String ← getAs j "t"
+  let v : String ← getAs j "v"
+  match t with
+  | "int" => do pure (.int (← parseIntStr v))
+  | "str" => pure (.str v.toList)
+  | "bytes" => do pure (.bytes (← unhex v.toList))
+  | "other" => pure (.other v.toList)
+  | _ => throw "bad uid type"
+
+def parseTok (j : Json) : Except String Tok :=
+  match j with
+  | .str s => pure (.str s.toList)
+  | _ => pure .nonstr
+
+def parseOp (j : Json) : Except String Op := do
+  let o : String ← getAs j "op"
+  match o with
+  | "identify" => pure .identify
+  | "forget" => pure .forget
+  | "remember" => do
+    let uid ← parseUid (← getField j "uid")
+    let ma ← optNat j "max_age"
+    let toks ← match (← getField j "tokens") with
+      | .arr xs => xs.toList.mapM parseTok
+      | _ => throw "bad tokens"
+    pure (.remember uid ma toks)
+  | _ => throw "bad op"
+
+def parseHash (j : Json) (hsize : Nat) : Except String Hash := do
+  match j with
+  | .obj kvs =>
+    let tbl ← kvs.toList.mapM fun (k, v) => do
+      let o : String ← fromJson? v
+      pure (← unhex k.toList, ← unhex o.toList)
+    pure { size := hsize, fn := fun x => match tbl.find? (·.1 == x) with | some (_, o) => o | none => [] }
+  | _ => throw "bad hash table"
+
+def parseUni (j : Json) : Except String Uni := do
+  match j with
+  | .obj kvs =>
+    let tbl ← kvs.toList.mapM fun (k, v) => do
+      let cp ← match k.toNat? with | some n => pure n | none => throw "bad code point"
+      match v with
+      | .str _ => pure (cp, (none : Option Nat))
+      | v => do let d : Nat ← fromJson? v; pure (cp, some d)
+    pure { isSpace := fun c => tbl.any fun (cp, d) => cp == c.toNat && d.isNone,
+           decimal := fun c => match tbl.find? (·.1 == c.toNat) with | some (_, d) => d | none => none }
+  | _ => throw "bad uni table"
+
+def errName : Err → String
+  | .valueError => "ValueError" | .unicodeEncodeError => "UnicodeEncodeError"
+  | .unicodeDecodeError => "UnicodeDecodeError" | .binasciiError => "binascii.Error" | .typeError => "TypeError"
+  | .unmodelled => "unmodelled"
+
+def txt (t : Text) : Json := Json.str (String.ofList t)
+def optTxt : Option Text → Json | some t => txt t | none => .null
+def optN : Option Nat → Json | some n => toJson n | none => .null
+
+def uidJson : UserId → Json
+  | .int z => Json.mkObj [("t", "int"), ("v", Json.str (toString z))]
+  | .str t => Json.mkObj [("t", "str"), ("v", txt t)]
+  | .bytes b => Json.mkObj [("t", "bytes"), ("v", Json.str (hexStr b))]
+  | .other t => Json.mkObj [("t", "other"), ("v", txt t)]
+
+def cookieJson (c : SetCookie) : Json := Json.mkObj [
+  ("name", txt c.name), ("value", txt c.value), ("domain", optTxt c.domain), ("path", optTxt c.path),
+  ("max_age", optN c.maxAge),
+  ("expires", Json.str (match c.expires with | .absent => "absent" | .past => "past" | .relative => "relative")),
+  ("secure", toJson c.secure), ("http_only", toJson c.httpOnly), ("samesite", optTxt c.samesite)]
+
+def resultJson : OpResult → Json
+  | .identity (.error e) => Json.mkObj [("r", "raised"), ("err", Json.str (errName e))]
+  | .identity (.ok none) => Json.mkObj [("r", "none")]
+  | .identity (.ok (some i)) => Json.mkObj [("r", "id"), ("ts", Json.str (toString i.ts)), ("uid", uidJson i.userid),
+      ("tokens", Json.arr (i.tokens.map txt).toArray), ("userdata", txt i.userData)]
+  | .headers (.error e) => Json.mkObj [("r", "raised"), ("err", Json.str (errName e))]
+  | .headers (.ok cs) => Json.mkObj [("r", "headers"), ("cookies", Json.arr (cs.map cookieJson).toArray)]
+
+/-- the first-hash input the model computes for an op (for the correspondence of hash inputs) -/
+def dinOf (env : Env) (cfg : Cfg) (req : Req) : Op → Option Bytes
+  | .identify =>
+    match req.cookie with
+    | none => none
+    | some c =>
+      match parseFields env.U (env.H.size * 2) c with
+      | none => none
+      | some (_, p) =>
+        match ipTimestamp env.U (remoteAddr cfg req) p.ts with
+        | .ok ipts => some (digestInput ipts (utf8Enc cfg.secret) p.userid p.tokens p.userData)
+        | .error _ => none
+  | .remember u _ toks =>
+    match checkTokens toks with
+    | .error _ => none
+    | .ok ts =>
+      let (tag, uid) := encodeUserid u
+      match ipTimestamp env.U (remoteAddr cfg req) req.clock with
+      | .ok ipts => some (digestInput ipts (utf8Enc cfg.secret) uid (List.intercalate [','] ts) (userIdTypePrefix ++ tag))
+      | .error _ => none
+  | .forget => none
+
+/-- spec side of `accept_iff_digest`, printed per identify: is the digest field the MAC of the other fields? -/
+def specOf (env : Env) (cfg : Cfg) (req : Req) : Op → Json
+  | .identify =>
+    match req.cookie with
+    | none => .null
+    | some c =>
+      match parseFields env.U (env.H.size * 2) c with
+      | none => Json.mkObj [("fields", .null)]
+      | some (d, p) =>
+        match ipTimestamp env.U (remoteAddr cfg req) p.ts with
+        | .ok ipts =>
+          let m := mac env.H (utf8Enc cfg.secret) (digestInput ipts (utf8Enc cfg.secret) p.userid p.tokens p.userData)
+          Json.mkObj [("fields", Json.mkObj [("ts", Json.str (toString p.ts)), ("userid", txt p.userid),
+                        ("tokens", txt p.tokens), ("userdata", txt p.userData)]),
+                      ("digest_ok", toJson (decide (m = d)))]
+        | .error _ => Json.mkObj [("fields", .null)]
+  | _ => .null
+
+def main : IO Unit := jsonDriver fun j => do
+  let (cfg, hsize) ← parseCfg (← getField j "cfg")
+  let req ← parseReq (← getField j "req")
+  let ops ← match (← getField j "ops") with
+    | .arr xs => xs.toList.mapM parseOp
+    | _ => throw "bad ops"
+  let H ← parseHash (← getField j "hash") hsize
+  let U ← parseUni (← getField j "uni")
+  let env : Env := ⟨H, U⟩
+  let (rs, st) := runOps env cfg req {} ops
+  return Json.mkObj [
+    ("results", Json.arr (rs.map resultJson).toArray),
+    ("response", Json.arr ((finish st).map cookieJson).toArray),
+    ("st", Json.mkObj [("reissued", toJson st.reissued), ("revoked", toJson st.revoked)]),
+    ("dins", Json.arr ((ops.map (dinOf env cfg req)).map fun | some b => Json.str (hexStr b) | none => .null).toArray),
+    ("spec", Json.arr (ops.map (specOf env cfg req)).toArray)]
